@@ -291,6 +291,18 @@ func checkEnv(c *pbt.Ctx, cs EnvCase) {
 	if !bytes.Equal(all, wrapped) {
 		c.Failf("header-footer-mismatch", "header+body+footer = %x, wrapped = %x", all, wrapped)
 	}
+	// the envelope behind other bytes the same protocol object has read already (a frame length, an earlier value):
+	// UnwrapBody starts at the cursor
+	for _, pre := range [][]byte{{0, 0, 0, byte(len(wrapped))}, cs.Name, {1}} {
+		up := thrift.BinaryProtocol{Buf: append(append([]byte{}, pre...), wrapped...), Read: len(pre)}
+		n3, t3, s3, id3, body3, err := up.UnwrapBody()
+		if err != nil {
+			c.Failf("unwrap-error", "UnwrapBody behind %d bytes already read: %v", len(pre), err)
+		}
+		if n3 != name || t3 != typ || s3 != cs.Seq || id3 != thrift.FieldID(cs.ID) || !bytes.Equal(body3, cs.Body) {
+			c.Failf("unwrap-mismatch", "UnwrapBody behind %d bytes already read = (%q,%d,%d,%d,%x) want (%q,%d,%d,%d,%x)", len(pre), n3, t3, s3, id3, body3, name, typ, cs.Seq, cs.ID, cs.Body)
+		}
+	}
 	// streaming read of the same envelope
 	p := thrift.NewBinaryProtocol(append([]byte{}, wrapped...))
 	rn, rt, rs, err := p.ReadMessageBegin(true)
